@@ -1,9 +1,16 @@
-/* allocation ledger and k-th-allocation fault injector; linked with -Wl,--wrap=malloc,calloc,realloc,free */
+/* allocation ledger and k-th-allocation fault injector; linked with -Wl,--wrap=malloc,calloc,realloc,free
+ * O(1) insert/lookup/delete: node pool + allocation-ordered doubly linked list + open-addressing hash. */
 #include "drv.h"
 
-#define LEDGER_CAP (1 << 20)
-static struct ledger_blk blocks_store[LEDGER_CAP];
-struct ledger_blk *ledger_blocks = blocks_store;
+#define POOL (1 << 19)
+#define HASHN (1 << 21)
+#define TOUCHN (1 << 12)
+struct lnode { void *p; size_t n; int prev, next; };
+static struct lnode pool[POOL];
+static int freelist = -1, pool_used, head = -1, tail = -1;
+static int htab[HASHN];            /* node index + 1, 0 = empty, -1 = tombstone */
+static int hash_dirty;
+static unsigned touched[TOUCHN]; static int ntouched;   /* slots written since the last reset (cheap reset) */
 int ledger_nblocks;
 volatile int ledger_on;
 long ledger_count;
@@ -11,32 +18,71 @@ long ledger_fail_at, ledger_fail_at2;
 int ledger_failed;
 long ledger_bad_free;
 size_t ledger_live_bytes, ledger_peak_bytes, ledger_big_request;
-static unsigned long seq;
+struct ledger_blk *ledger_blocks;   /* materialised on demand by ledger_snapshot() */
+static struct ledger_blk snap_store[1 << 16];
+
+NI static unsigned hslot(void *p) { uintptr_t x = (uintptr_t)p; x ^= x >> 17; x *= 0x9E3779B97F4A7C15ull; return (unsigned)(x >> 40) & (HASHN - 1); }
 
 NI void ledger_reset(void) {
+    if(hash_dirty) {
+        /* cheap reset: clear only the slots that were written when few blocks were tracked */
+        if(ntouched < TOUCHN) for(int i = 0; i < ntouched; i++) htab[touched[i]] = 0;
+        else memset(htab, 0, sizeof htab);
+        hash_dirty = 0; ntouched = 0;
+    }
+    freelist = -1; pool_used = 0; head = tail = -1;
     ledger_nblocks = 0; ledger_count = 0; ledger_fail_at = ledger_fail_at2 = 0; ledger_failed = 0;
-    ledger_bad_free = 0; ledger_live_bytes = ledger_peak_bytes = 0; ledger_big_request = 0; seq = 0;
+    ledger_bad_free = 0; ledger_live_bytes = ledger_peak_bytes = 0; ledger_big_request = 0;
 }
 NI int ledger_live(void) { return ledger_nblocks; }
 
+NI static int find(void *p) {
+    unsigned h = hslot(p);
+    for(unsigned k = 0; k < HASHN; k++) {
+        int v = htab[(h + k) & (HASHN - 1)];
+        if(v == 0) return -1;
+        if(v > 0 && pool[v - 1].p == p) return v - 1;
+    }
+    return -1;
+}
 NI static void add(void *p, size_t n) {
     if(!p) return;
-    if(ledger_nblocks == LEDGER_CAP) { fprintf(stderr, "ledger overflow\n"); abort(); }
-    ledger_blocks[ledger_nblocks].p = p; ledger_blocks[ledger_nblocks].n = n; ledger_blocks[ledger_nblocks].seq = seq++;
+    int i;
+    if(freelist >= 0) { i = freelist; freelist = pool[i].next; }
+    else { if(pool_used == POOL) { fprintf(stderr, "ledger overflow\n"); abort(); } i = pool_used++; }
+    pool[i].p = p; pool[i].n = n; pool[i].prev = tail; pool[i].next = -1;
+    if(tail >= 0) pool[tail].next = i; else head = i;
+    tail = i;
+    unsigned h = hslot(p);
+    for(unsigned k = 0; k < HASHN; k++) {
+        unsigned sl = (h + k) & (HASHN - 1);
+        if(htab[sl] <= 0) { if(htab[sl] == 0 && ntouched < TOUCHN) touched[ntouched++] = sl; else if(htab[sl] == 0) ntouched = TOUCHN; htab[sl] = i + 1; break; }
+    }
+    hash_dirty = 1;
     ledger_nblocks++;
     ledger_live_bytes += n;
     if(ledger_live_bytes > ledger_peak_bytes) ledger_peak_bytes = ledger_live_bytes;
 }
-NI static int find(void *p) {
-    for(int i = ledger_nblocks - 1; i >= 0; i--) if(ledger_blocks[i].p == p) return i;
-    return -1;
-}
 NI static void del_at(int i) {
-    ledger_live_bytes -= ledger_blocks[i].n;
-    memmove(ledger_blocks + i, ledger_blocks + i + 1, (ledger_nblocks - i - 1) * sizeof ledger_blocks[0]);
+    ledger_live_bytes -= pool[i].n;
+    unsigned h = hslot(pool[i].p);
+    for(unsigned k = 0; k < HASHN; k++) { int *s = &htab[(h + k) & (HASHN - 1)]; if(*s == i + 1) { *s = -1; break; } if(*s == 0) break; }
+    if(pool[i].prev >= 0) pool[pool[i].prev].next = pool[i].next; else head = pool[i].next;
+    if(pool[i].next >= 0) pool[pool[i].next].prev = pool[i].prev; else tail = pool[i].prev;
+    pool[i].p = 0;
+    pool[i].next = freelist; freelist = i;
     ledger_nblocks--;
 }
 NI void ledger_forget(void *p) { int i = find(p); if(i >= 0) del_at(i); }
+
+/* blocks in allocation order, for canon_image() and zero-block checks */
+NI int ledger_snapshot(void) {
+    int k = 0;
+    for(int i = head; i >= 0 && k < (1 << 16); i = pool[i].next) { snap_store[k].p = pool[i].p; snap_store[k].n = pool[i].n; snap_store[k].seq = k; k++; }
+    ledger_blocks = snap_store;
+    return k;
+}
+NI size_t ledger_size_of(void *p) { int i = find(p); return i < 0 ? (size_t)-1 : pool[i].n; }
 
 NI static int tick(size_t n) {
     if(!ledger_on) return 0;
@@ -60,12 +106,12 @@ NI void *__wrap_calloc(size_t a, size_t b) {
 }
 NI void *__wrap_realloc(void *o, size_t n) {
     if(tick(n)) { errno = ENOMEM; return 0; }
-    if(!ledger_on) return __real_realloc(o, n);
+    if(!ledger_on) { if(o) { int i = find(o); if(i >= 0) del_at(i); } return __real_realloc(o, n); }
     size_t on = 0; int i = -1;
     if(o) {
         i = find(o);
         if(i < 0) { ledger_bad_free++; void *q = __real_realloc(o, n); add(q, n); return q; }
-        on = ledger_blocks[i].n;
+        on = pool[i].n;
     }
     /* deterministic contents: always move to a fresh block so that slack is pattern-filled */
     void *p = __real_malloc(n ? n : 1);
@@ -78,13 +124,10 @@ NI void *__wrap_realloc(void *o, size_t n) {
 }
 NI void __wrap_free(void *p) {
     if(!p) return;
+    int i = find(p);
     if(ledger_on) {
-        int i = find(p);
         if(i < 0) { ledger_bad_free++; if(getenv("VERIF_ABORT_BADFREE")) abort(); return; }   /* unknown or double free: recorded, not executed */
         del_at(i);
-    } else {
-        int i = find(p);
-        if(i >= 0) del_at(i);
-    }
+    } else if(i >= 0) del_at(i);
     __real_free(p);
 }
